@@ -13,7 +13,7 @@ import os
 from lib import repo, simmp, simrun, guard
 from checks import c01, c03
 
-FLAVOURS = ["plain", "unpicklable", "signal", "oserror", "oserror-noerrno"]
+FLAVOURS = ["plain", "unpicklable", "signal", "oserror", "oserror-noerrno", "oserror-eagain", "oserror-eio"]
 WQ_CFG = c03.CFG
 WALK_CFG = c01.CFG
 
